@@ -69,6 +69,12 @@ type Resolver struct {
 	// resurrected from the mutable copy on the next refresh.
 	configuredRootKeys []dns.RR
 
+	// unpersistedRevocations is the revocation store of a refresh that
+	// accepted a revocation and could write neither state file. It is
+	// the only record of that revocation; every later refresh merges
+	// it into what it reads from disk, until a write lands.
+	unpersistedRevocations Tombstones
+
 	qnameMinLevel int
 	netTimeout    time.Duration
 	workPolicy    middleware.RecursionWorkPolicy
